@@ -69,6 +69,8 @@ type Script struct {
 	// with an unbuffered output reads at most one item from an input between two quiescent
 	// points and producers blocked on a small input buffer keep it full at all times.
 	Strict bool `json:"receive_one_at_a_time,omitempty"`
+	// ErrLate (v2 plain): the consumer does not touch Err() before Output() has been closed
+	ErrLate bool `json:"err_read_only_after_output_closed,omitempty"`
 	// EpiHold: in the epilogue, once the inputs are closed and everything available has
 	// been received, the consumer sits on the in-flight items for this many virtual ns before it
 	// releases the first of them (a slow handler).
